@@ -178,10 +178,12 @@ func GenDataSpec(r *simrt.Rand, n int, wantUnique bool) *DataSpec {
 type schemaInfo struct {
 	cols []string
 	vals map[string][]string
+	card map[string]int
+	n    int
 }
 
 func infoOf(rows []Row) *schemaInfo {
-	si := &schemaInfo{vals: map[string][]string{}}
+	si := &schemaInfo{vals: map[string][]string{}, card: map[string]int{}, n: len(rows)}
 	seen := map[string]map[string]bool{}
 	for _, r := range rows {
 		for _, kv := range r {
@@ -192,6 +194,7 @@ func infoOf(rows []Row) *schemaInfo {
 			}
 			if !seen[c][v] {
 				seen[c][v] = true
+				si.card[c]++
 				if len(si.vals[c]) < 200 {
 					si.vals[c] = append(si.vals[c], v)
 				}
@@ -269,7 +272,7 @@ func genNary(r *simrt.Rand, si *schemaInfo, depth int, o ExprOpts, op string) *E
 }
 
 // GenGroupBy draws a group-by list of length 0..maxLen over existing, repeated and (rarely) unknown columns.
-func GenGroupBy(r *simrt.Rand, si *schemaInfo, maxLen int, allowUnknown bool) []S {
+func GenGroupBy(r *simrt.Rand, si *schemaInfo, maxLen int, allowUnknown bool) (out []S) {
 	if len(si.cols) == 0 {
 		if allowUnknown && r.Chance(1, 4) {
 			return []S{"nosuchcol"}
@@ -277,7 +280,24 @@ func GenGroupBy(r *simrt.Rand, si *schemaInfo, maxLen int, allowUnknown bool) []
 		return nil
 	}
 	n := r.Intn(maxLen + 1)
-	var out []S
+	defer func() {
+		// the library refines groups level by level at a cost of (#groups so far) x (values
+		// of the next column) bitmap fetches; keep generated lists affordable (performance is
+		// not what is being checked)
+		groups, cost := 1, 0
+		for i, c := range out {
+			k := si.card[string(c)]
+			cost += groups * k
+			groups *= k
+			if groups > si.n {
+				groups = si.n
+			}
+			if cost > 60000 {
+				out = out[:i]
+				return
+			}
+		}
+	}()
 	for i := 0; i < n; i++ {
 		switch {
 		case allowUnknown && r.Chance(1, 25):
